@@ -87,27 +87,41 @@ def showOrigin : Origin → String
   | .global => "global"
   | .rule i => s!"rule:{i}"
 
+def parseHits : List String → Option (ListHits × List String)
+  | a :: b :: c :: rest => do some ({ ext := ← boolOf a, file := ← boolOf b, pattern := ← boolOf c }, rest)
+  | _ => none
+
 def parseFileRules : Nat → List String → Option (List FileRuleBits × List String)
   | 0, rest => some ([], rest)
-  | n + 1, a :: b :: c :: d :: e :: f :: rest => do
-    let r : FileRuleBits := { scopeMatches := ← boolOf a, hasAllowlist := ← boolOf b, allowMatch := ← boolOf c,
-                              denyMatch := ← boolOf d, hasNaming := ← boolOf e, namingOk := ← boolOf f }
-    let (rs, rest') ← parseFileRules n rest
-    some (r :: rs, rest')
+  | n + 1, a :: b :: rest => do
+    let (al, rest) ← parseHits rest
+    let (dn, rest) ← parseHits rest
+    match rest with
+    | e :: f :: rest =>
+      let r : FileRuleBits := { scopeMatches := ← boolOf a, hasAllowlist := ← boolOf b, allow := al, deny := dn,
+                                hasNaming := ← boolOf e, namingOk := ← boolOf f }
+      let (rs, rest') ← parseFileRules n rest
+      some (r :: rs, rest')
+    | _ => none
   | _, _ => none
 
-/-- `place-file gHasAllow gAllow gDeny n (scope hasAllow allow deny hasNaming namingOk)…` -/
+/-- `place-file gHasAllow gAllow(3) gDeny(3) n (scope hasAllow allow(3) deny(3) hasNaming namingOk)…` -/
 def handlePlaceFile (args : List String) : Option String :=
   match args with
-  | a :: b :: c :: n :: rest => do
-    let g : FileGlobalBits := { hasAllowlist := ← boolOf a, allowMatch := ← boolOf b, denyMatch := ← boolOf c }
-    let (rules, rest') ← parseFileRules (← n.toNat?) rest
-    if !rest'.isEmpty then none else
-    match checkFile g rules with
-    | none => some "none"
-    | some (.disallowed o) => some s!"disallowed:{showOrigin o}"
-    | some (.denied o) => some s!"denied:{showOrigin o}"
-    | some (.naming o) => some s!"naming:{showOrigin o}"
+  | a :: rest => do
+    let (gal, rest) ← parseHits rest
+    let (gdn, rest) ← parseHits rest
+    match rest with
+    | n :: rest =>
+      let g : FileGlobalBits := { hasAllowlist := ← boolOf a, allow := gal, deny := gdn }
+      let (rules, rest') ← parseFileRules (← n.toNat?) rest
+      if !rest'.isEmpty then none else
+      match checkFile g rules with
+      | none => some "none"
+      | some (.disallowed o) => some s!"disallowed:{showOrigin o}"
+      | some (.denied o) => some s!"denied:{showOrigin o}"
+      | some (.naming o) => some s!"naming:{showOrigin o}"
+    | [] => none
   | _ => none
 
 def parseDirRules : Nat → List String → Option (List DirRuleBits × List String)
@@ -132,7 +146,7 @@ def handlePlaceDir (args : List String) : Option String :=
       | .disallowed o => s!"disallowed:{showOrigin o}"
       | .deniedPattern o => s!"denied:{showOrigin o}"
       | .deniedBasename o => s!"denied:{showOrigin o}"
-    some (if fs.isEmpty then "none" else ",".intercalate (fs.map one))
+    some (if fs.isEmpty then "none" else ",".intercalate (sortStrings (fs.map one)))
   | _ => none
 
 def showNameList (xs : List (List Char)) : String :=
